@@ -393,3 +393,99 @@ fn c04_stark_transcript() {
     }
     finish("c04_stark_transcript", cases, bad);
 }
+
+// C09: a prover that ignores the constraints altogether.  It commits to the (violating) trace, derives the transcript exactly as the verifier does,
+// and tries to answer the opening point zeta with degree-one "quotients" t_j(X) = a_j + b_j X chosen so that vanishing_j(zeta) == Z_H(zeta) t_j(zeta).
+// That only works if it learns zeta BEFORE it must commit to the quotient; it therefore omits the quotient commitment from the proof.
+// Whatever the proving API can be made to emit for a false statement must not be accepted.
+fn cheating_stark_proof(stark: Fib<F, D>, config: &StarkConfig, trace: Vec<PolynomialValues<F>>, public_inputs: &[F], send_quotient_cap: bool) -> StarkProofWithPublicInputs<F, C, D> {
+    use core::iter::successors;
+    use plonky2::field::polynomial::PolynomialCoeffs;
+    use plonky2::fri::oracle::PolynomialBatch;
+    use plonky2::hash::poseidon::PoseidonHash;
+    use plonky2::iop::challenger::Challenger;
+    use plonky2::util::{log2_ceil, log2_strict};
+    use crate::proof::{StarkOpeningSet, StarkProof};
+    use crate::vanishing_poly::{compute_eval_vanishing_poly, eval_l_0_and_l_last, eval_vanishing_poly};
+    let mut timing = TimingTree::default();
+    let degree = trace[0].len();
+    let degree_bits = log2_strict(degree);
+    let fri_params = config.fri_params(degree_bits);
+    let rate_bits = config.fri_config.rate_bits;
+    let cap_height = config.fri_config.cap_height;
+    let nc = config.num_challenges;
+    let g = F::primitive_root_of_unity(degree_bits);
+    let trace_commitment = PolynomialBatch::<F, C, D>::from_values(trace, rate_bits, false, cap_height, &mut timing, None);
+    let mut challenger = Challenger::<F, PoseidonHash>::new();
+    challenger.observe_elements(public_inputs);
+    config.observe(&mut challenger);
+    challenger.observe_cap(&trace_commitment.merkle_tree.cap);
+    let alphas_prime = challenger.get_n_challenges(nc);
+    let pow_degree = core::cmp::max(2, stark.constraint_degree() + 1);
+    let num_extension_powers = core::cmp::max(1, 50 / log2_ceil(pow_degree) - 1);
+    let total: usize = 2 * 2;
+    let simulating_zetas = challenger.get_n_extension_challenges::<D>(total.div_ceil(num_extension_powers));
+    let per_zeta = core::cmp::min(num_extension_powers + 1, total);
+    let dummy = simulating_zetas.iter().flat_map(|&z| successors(Some(z), move |prev: &FE| Some(prev.exp_u64(pow_degree as u64))).take(per_zeta)).collect::<Vec<FE>>();
+    let dummy_openings = StarkOpeningSet::<F, D> { local_values: dummy[..2].to_vec(), next_values: dummy[2..4].to_vec(), auxiliary_polys: None, auxiliary_polys_next: None, ctl_zs_first: None, quotient_polys: None };
+    let zeta_prime = challenger.get_extension_challenge::<D>();
+    let bound = compute_eval_vanishing_poly::<F, Fib<F, D>, D>(&stark, &dummy_openings, None, None, &[], public_inputs, alphas_prime, zeta_prime, degree_bits, 0);
+    challenger.observe_extension_elements::<D>(&bound);
+    let alphas = challenger.get_n_challenges(nc);
+    // the cheat: squeeze the next challenge and bet that it is the opening point
+    let zeta = challenger.get_extension_challenge::<D>();
+    let trace_openings = StarkOpeningSet::<F, D>::new::<C>(zeta, g, &trace_commitment, None, None, 0, false, &[]);
+    let (l_0, l_last) = eval_l_0_and_l_last(degree_bits, zeta);
+    let z_last = zeta - <FE as FieldExtension<D>>::from_basefield(g.inverse());
+    let mut consumer = ConstraintConsumer::<FE>::new(alphas.iter().map(|&a| <FE as FieldExtension<D>>::from_basefield(a)).collect(), z_last, l_0, l_last);
+    let pis_ext = public_inputs.iter().map(|&x| <FE as FieldExtension<D>>::from_basefield(x)).collect::<Vec<_>>();
+    let vars = <Fib<F, D> as Stark<F, D>>::EvaluationFrame::<FE, FE, D>::from_values(&trace_openings.local_values, &trace_openings.next_values, &pis_ext);
+    eval_vanishing_poly::<F, FE, FE, Fib<F, D>, D, D>(&stark, &vars, &[], None, None, &mut consumer);
+    let vanishing_zeta = consumer.accumulators();
+    let z_h_zeta = zeta.exp_power_of_2(degree_bits) - FE::ONE;
+    let zp: [F; D] = <FE as FieldExtension<D>>::to_basefield_array(&zeta);
+    let quotient_polys = vanishing_zeta.iter().map(|&v| {
+        let c: [F; D] = <FE as FieldExtension<D>>::to_basefield_array(&(v / z_h_zeta));
+        let b = c[1] / zp[1];
+        let a = c[0] - b * zp[0];
+        let mut coeffs = vec![F::ZERO; degree]; coeffs[0] = a; coeffs[1] = b;
+        PolynomialCoeffs::new(coeffs)
+    }).collect::<Vec<_>>();
+    let quotient_commitment = PolynomialBatch::<F, C, D>::from_coeffs(quotient_polys, rate_bits, false, cap_height, &mut timing, None);
+    let openings = StarkOpeningSet::<F, D>::new::<C>(zeta, g, &trace_commitment, None, Some(&quotient_commitment), 0, false, &[]);
+    challenger.observe_openings(&openings.to_fri_openings());
+    let opening_proof = PolynomialBatch::<F, C, D>::prove_openings(&stark.fri_instance(zeta, g, 0, vec![], config), &[&trace_commitment, &quotient_commitment], &mut challenger, &fri_params, None, None, &mut timing);
+    StarkProofWithPublicInputs { proof: StarkProof { trace_cap: trace_commitment.merkle_tree.cap.clone(), auxiliary_polys_cap: None,
+        quotient_polys_cap: if send_quotient_cap { Some(quotient_commitment.merkle_tree.cap.clone()) } else { None }, openings, opening_proof }, public_inputs: public_inputs.to_vec() }
+}
+
+#[test]
+fn c09_cheating_prover() {
+    let mut bad = Vec::new();
+    let mut cases = 0usize;
+    let config = StarkConfig::standard_fast_config();
+    for n in [32usize, 256] {
+        let stark = Fib::<F, D> { num_rows: n, _p: PhantomData };
+        let rows = trace(n, F::ZERO, F::ONE);
+        let res = rows[n - 1][1];
+        // false statements: wrong claimed result; corrupted interior cell; both
+        for (what, cell, dres) in [("wrong claimed result", None, F::ONE), ("corrupted interior cell", Some(n / 2), F::ZERO), ("corrupted cell and wrong result", Some(3), F::TWO)] {
+            let mut r2 = rows.clone();
+            if let Some(c) = cell { r2[c][0] += F::from_canonical_u64(12345); }
+            let pis = [F::ZERO, F::ONE, res + dres];
+            for send_cap in [false, true] {
+                cases += 1;
+                let t = trace_rows_to_poly_values(r2.clone());
+                match catch_unwind(AssertUnwindSafe(|| cheating_stark_proof(stark, &config, t, &pis, send_cap))) {
+                    Ok(p) => { let v = verdict(stark, p, &config); if v != "rejected" { bad.push(format!("{n} rows, {what}: proof of a prover that ignores the constraints ({} quotient commitment) -> {v}", if send_cap { "with" } else { "without" })); } }
+                    Err(_) => {}   // the cheating strategy itself broke down: nothing was emitted
+                }
+            }
+        }
+        // sanity of the harness prover: on an HONEST trace and statement its transcript matches the verifier's only if the quotient cap is absorbed, so
+        // neither variant is expected to be accepted; an honest proof from the real prover is
+        cases += 1;
+        match prove_rows(stark, rows.clone(), [F::ZERO, F::ONE, res], &config) { Ok(p) => { if verdict(stark, p, &config) != "ACCEPTED" { bad.push(format!("{n} rows: honest proof not accepted")); } } Err(e) => bad.push(format!("{n} rows: honest proving failed: {e}")) }
+    }
+    finish("c09_cheating_prover", cases, bad);
+}
